@@ -1,13 +1,12 @@
 /*UNIT
-{"props": ["C18"], "src": ["lib/trie.c"], "mode": "plain", "kind": "bounded",
+{"props": ["C18"], "src": ["lib/trie.c"], "mode": "plain", "kind": "bounded", "tier": "thorough",
  "bound": "key universe {b, bc, bcd, bd, c}; every subset of <= 2 keys (ascending and descending insertion order, real trie_put); an iterator advanced 1 step (completed afterwards) or 1 step (abandoned afterwards), then ONE rm or put of any universe key, then the iteration is completed or abandoned (iter_free part-way)",
  "unwind": 260, "object_bits": 12, "cbmc_flags": ["--no-malloc-may-fail"],
  "functions": ["trie_rm", "trie_put", "trie_iter_create", "trie_iter_next", "trie_iter_free", "trie_node_next", "trie_node_ref", "trie_node_deref", "trie_node_destroy", "trie_node_release", "trie_node_split", "trie_insert"],
  "restrict_fp": ["trie_notify.function_pointer_call.1/verif_notify_cb", "trie_notify.function_pointer_call.2/verif_notify_cb"],
  "stubs": ["map notifier callback (records calls)", "calloc/malloc/realloc (scripted: succeed)"],
  "expect_classes": ["assertion"], "timeout": 400,
- "variants": [{"vname": "rm_parked", "defines": ["-DV_RM", "-DV_PARKED"]},
-              {"vname": "rm_other_a", "defines": ["-DV_RM", "-DV_OTHER", "-DTR_STATE_FROM=0", "-DTR_STATE_TO=8"]},
+ "variants": [{"vname": "rm_other_a", "defines": ["-DV_RM", "-DV_OTHER", "-DTR_STATE_FROM=0", "-DTR_STATE_TO=8"]},
               {"vname": "rm_other_b", "defines": ["-DV_RM", "-DV_OTHER", "-DTR_STATE_FROM=8", "-DTR_STATE_TO=16"]},
               {"vname": "rm_other_c", "defines": ["-DV_RM", "-DV_OTHER", "-DTR_STATE_FROM=16", "-DTR_STATE_TO=24"]},
               {"vname": "rm_other_d", "defines": ["-DV_RM", "-DV_OTHER", "-DTR_STATE_FROM=24", "-DTR_STATE_TO=32"]},
